@@ -27,6 +27,22 @@ type table struct {
 	key     any // string or int
 	size    int
 	columns []*table
+	kinds   byte // 1: an array cell was seen, 2: a map cell was seen
+}
+
+// mixed reports whether some column holds an array in one row and a map in
+// another. Such a table can not be used for alignment as array cells are
+// matched to columns by position and map cells by key.
+func (t *table) mixed() bool {
+	if t.kinds == 3 {
+		return true
+	}
+	for _, col := range t.columns {
+		if col.mixed() {
+			return true
+		}
+	}
+	return false
 }
 
 func (n *node) subKind() (kind byte) {
@@ -78,8 +94,10 @@ func (n *node) updateArrayTable(t *table, lazy bool) {
 				col.size = m.size
 			}
 		case arrayNode:
+			col.kinds |= 1
 			m.updateArrayTable(col, lazy)
 		case mapNode:
+			col.kinds |= 2
 			m.updateMapTable(col, lazy)
 		}
 	}
@@ -118,8 +136,10 @@ func (n *node) updateMapTable(t *table, lazy bool) {
 				col.size = m.size
 			}
 		case arrayNode:
+			col.kinds |= 1
 			m.updateArrayTable(col, lazy)
 		case mapNode:
+			col.kinds |= 2
 			m.updateMapTable(col, lazy)
 		}
 	}
